@@ -195,6 +195,11 @@ def q1_poll_inventory(F, r):
 
 
 def t1_estimates_clamped(F, r):
+    from .. import signs
+    need_sign = []
+    # lower bound by sign analysis; assumptions: configured limits are positive (the property speaks about positive limits), elapsed time is >= 0
+    inv = {("rosomaxa::termination::max_time::MaxTime", "limit_in_secs"): signs.num(signs.POS), ("rosomaxa::termination::max_generation::MaxGeneration", "limit"): signs.num(signs.POS)}
+    E = signs.Engine(F, inv, {"::elapsed_secs_as_float": lambda e, a, vn: signs.num(signs.NONNEG, None, vn), "::as_secs_f64": lambda e, a, vn: signs.num(signs.NONNEG, None, vn)})
     for m in F.trait_impl_methods(TERM + "::estimate"):
         fn = F.fns[m]
         name = util.short_fn(m)
@@ -212,10 +217,12 @@ def t1_estimates_clamped(F, r):
             elif k == "call":
                 t = fn["bbs"][v]["t"]
                 last = t["callee"].split("::")[-1]
-                if last == "min" and any(mir.is_const(a) and str(a["c"]).startswith("1") for a in t["args"]):
-                    why.append("min(_, 1.0)")
-                elif last == "clamp":
-                    why.append("clamp")
+                consts = [signs.parse_const(a) for a in t["args"] if mir.is_const(a)]
+                if last == "min" and consts and all(c is not None and 0.0 <= c <= 1.0 for c in consts):
+                    why.append(f"min(_, {consts[0]})")
+                    need_sign.append(m)
+                elif last == "clamp" and len(consts) == 2 and all(c is not None and 0.0 <= c <= 1.0 for c in consts):
+                    why.append(f"clamp({consts[0]}, {consts[1]})")
                 elif last in ("unwrap_or_default", "unwrap_or"):
                     # max of other estimates
                     leaves, crossed = mir.deep_leaves(fn, t["args"][0])
@@ -228,6 +235,15 @@ def t1_estimates_clamped(F, r):
                     good = False
             else:
                 good = False
+        if good and why and m in need_sign:
+            a = E.analyse(m)
+            S = signs.as_num(a.ret)[1] if a.ret else signs.TOP
+            if not (S <= signs.NONNEG) or a.hazards:
+                good = False
+                r.fail(name + ": lower bound", f"the clamped ratio can have sign {{{','.join(sorted(S))}}}" + (f" ({a.hazards[0].detail})" if a.hazards else "") +
+                       ": progress below 0 (assuming positive limits and non-negative elapsed time)", F.loc(m))
+                continue
+            why.append("ratio >= 0 by sign analysis")
         if good and why:
             r.ok(name, ", ".join(why))
         else:
